@@ -73,6 +73,17 @@ class Scope:
                 a, b = n.value.args
                 self.alias[n.targets[0].elts[0].id] = ast.BinOp(_clone(a), ast.FloorDiv(), _clone(b))
                 self.alias[n.targets[0].elts[1].id] = ast.BinOp(_clone(a), ast.Mod(), _clone(b))
+        # integer constants of the module (WORD_MASK = 0xffff): a name for a number, not a variable
+        mcount = {}
+        for st in getattr(self.mod, "tree", ast.Module([], [])).body:
+            for t_ in (st.targets if isinstance(st, ast.Assign) else [getattr(st, "target", None)] if isinstance(st, (ast.AugAssign, ast.AnnAssign)) else []):
+                for m in ast.walk(t_) if t_ is not None else []:
+                    if isinstance(m, ast.Name):
+                        mcount[m.id] = mcount.get(m.id, 0) + 1
+        for st in getattr(self.mod, "tree", ast.Module([], [])).body:
+            if isinstance(st, ast.Assign) and len(st.targets) == 1 and isinstance(st.targets[0], ast.Name) and mcount.get(st.targets[0].id) == 1 and st.targets[0].id not in counts \
+                    and st.targets[0].id not in self.alias and _const(st.value) is not None:
+                self.alias[st.targets[0].id] = st.value
         self.cache = {}
 
     def subst(self, node, depth=4):
@@ -356,6 +367,8 @@ def t_countdown(sc, loop):
             up = isinstance(opn, (ast.Lt, ast.LtE))
             if not (down or up):
                 continue
+            if isinstance(bound, (ast.Tuple, ast.List)):
+                continue        # an ordering of tuples (precedence, associativity) is a test, not a counter
             bound_names = {n.id for n in ast.walk(bound) if isinstance(n, ast.Name)}
             if any(isinstance(n, ast.Name) and isinstance(n.ctx, ast.Store) and n.id in bound_names for b in loop.body for n in ast.walk(b)):
                 continue        # the bound moves too
